@@ -437,8 +437,15 @@ Proof.
   destruct (Z.ltb_spec bz (clock s)); [discriminate|]. intros _. exists bz. auto.
 Qed.
 
-Lemma res_cases (r : cres) : r = ResOk \/ r = ResRefused.
-Proof. destruct r; auto. Qed.
+Lemma do_start_res_cases p fuel s b i :
+  snd (do_start fuel p s b i) = ResOk \/ snd (do_start fuel p s b i) = ResRefused.
+Proof.
+  unfold do_start. destruct (start_checks s); auto. destruct b as [bz|]; auto.
+  destruct (bz <? clock s); auto. destruct (bz >? end_time s); cbn [snd]; auto.
+Qed.
+
+Lemma do_step_res_cases p s : snd (do_step p s) = ResOk \/ snd (do_step p s) = ResRefused.
+Proof. unfold do_step. destruct (step_checks s); cbn [snd]; auto. Qed.
 
 (* ------------------------------------------------------------------ *)
 (** * Every run command moves the core along the canonical sequence *)
@@ -461,7 +468,7 @@ Lemma do_start_citer p fuel s b i :
   worker s = WAlive ->
   exists n, core_eq (fst (do_start fuel p s b i)) (citer n (end_time s) true p s).
 Proof.
-  intros W. destruct (res_cases (snd (do_start fuel p s b i))) as [Ok|Rf].
+  intros W. destruct (do_start_res_cases p fuel s b i) as [Ok|Rf].
   - destruct (do_start_accepted _ _ _ _ _ Ok) as [bz [-> [Ck Le]]].
     destruct (do_start_shape p fuel s bz i Ck Le W) as [a [En Sh]]. rewrite Sh. cbn [fst].
     destruct (run_loop_from_entered p fuel s _ _ a En) as [n [C _]].
@@ -625,7 +632,7 @@ Lemma do_start_quiet p fuel s b i :
   Live s -> Quiet (fst (do_start fuel p s b i)).
 Proof.
   intros L. pose proof L as (_&_&W).
-  destruct (res_cases (snd (do_start fuel p s b i))) as [Ok|Rf].
+  destruct (do_start_res_cases p fuel s b i) as [Ok|Rf].
   - destruct (do_start_accepted _ _ _ _ _ Ok) as [bz [-> [Ck Le]]].
     destruct (do_start_shape p fuel s bz i Ck Le W) as [a [En Sh]]. rewrite Sh. cbn [fst].
     destruct (started_quiet p fuel s _ _ a En (clamp_le s bz i)) as [[_ H]|[_ [H _]]]; [left|right]; auto.
@@ -1015,8 +1022,9 @@ Proof.
   assert (T2 : trace s2 = trace s) by (unfold s2; destruct (worker (set_pend [] s)); reflexivity).
   pose proof (fr_trace _ _ (hs_frame _ _ (exec_actions_hstep InConstruct (body p 0) s2))) as T3.
   destruct (exec_actions InConstruct s2 (body p 0)) as [s3 failed]. cbn [fst] in *.
+  destruct failed; [ssimpl; congruence|].
   set (s5 := set_ps PInit _).
-  assert (T5 : trace s5 = trace s3) by (unfold s5; destruct failed; reflexivity).
+  assert (T5 : trace s5 = trace s3) by (unfold s5; reflexivity).
   destruct (r_warm r <? clock s5); ssimpl; congruence.
 Qed.
 
@@ -1039,13 +1047,13 @@ Proof.
   intros HI.
   assert (St : forall b i, exists new, trace (fst (do_start fuel p s b i)) = new ++ trace s
                                     /\ Forall (fun ec => snd ec <= end_time s) new).
-  { intros b i. destruct (res_cases (snd (do_start fuel p s b i))) as [Ok|Rf].
+  { intros b i. destruct (do_start_res_cases p fuel s b i) as [Ok|Rf].
     - apply trace_ext_le; [apply (cf_mono _ _ (do_start_facts p fuel s b i) HI)|apply do_start_clock_le; auto].
     - apply trace_same. rewrite (do_start_refused _ _ _ _ _ Rf). reflexivity. }
   destruct c; cbn [do_cmd fst]; try (apply trace_same; reflexivity); auto.
   - apply trace_same. apply do_init_trace.
   - destruct (rep s); [apply St|apply trace_same; reflexivity].
-  - destruct (res_cases (snd (do_step p s))) as [Ok|Rf].
+  - destruct (do_step_res_cases p s) as [Ok|Rf].
     + apply trace_ext_le; [apply (cf_mono _ _ (do_step_facts p s) HI)|apply do_step_clock_le; auto].
     + apply trace_same. unfold do_step in *. destruct (step_checks s); [discriminate|reflexivity].
   - apply trace_same. destruct (running s); reflexivity.
@@ -1114,19 +1122,45 @@ Qed.
 (* ------------------------------------------------------------------ *)
 (** * After initialize *)
 
-Lemma do_init_live p s r : running s = false -> Live (fst (do_init p s r)).
+(* an initialize whose construct_model raised leaves the simulator not initialised: nothing runs *)
+Lemma do_init_raised p s r :
+  snd (do_init p s r) = ResRaised ->
+  rs (fst (do_init p s r)) = RNotInit /\ ps (fst (do_init p s r)) = PNotInit /\ worker (fst (do_init p s r)) = WAlive.
 Proof.
-  intros R. unfold do_init. rewrite R.
+  unfold do_init. destruct (running s); [discriminate|].
   set (s2 := set_created [] _).
   assert (W2 : worker s2 = WAlive) by (unfold s2; destruct (worker (set_pend [] s)); reflexivity).
   pose proof (hs_frame _ _ (exec_actions_hstep InConstruct (body p 0) s2)) as F.
   destruct (exec_actions InConstruct s2 (body p 0)) as [s3 failed]. cbn [fst] in *.
   pose proof (fr_worker _ _ F) as W3.
+  destruct failed; [intros _; ssimpl; repeat split; congruence|].
+  cbn [snd]. discriminate.
+Qed.
+
+Lemma do_init_res p s r :
+  snd (do_init p s r) = (if running s then ResRefused else if snd (exec_actions InConstruct
+     (set_created [] (set_clock (r_start r) (set_rep (Some r) (set_worker WAlive
+        (match worker (set_pend [] s) with WNone => set_pend [] s | _ => do_cleanup (set_pend [] s) end))))) (body p 0))
+     then ResRaised else ResOk).
+Proof.
+  unfold do_init. destruct (running s); [reflexivity|].
+  match goal with |- context [exec_actions InConstruct ?X ?B] => destruct (exec_actions InConstruct X B) as [s3 [|]] end; reflexivity.
+Qed.
+
+Lemma do_init_live p s r : snd (do_init p s r) = ResOk -> Live (fst (do_init p s r)).
+Proof.
+  unfold do_init. destruct (running s) eqn:R; [discriminate|].
+  set (s2 := set_created [] _).
+  assert (W2 : worker s2 = WAlive) by (unfold s2; destruct (worker (set_pend [] s)); reflexivity).
+  pose proof (hs_frame _ _ (exec_actions_hstep InConstruct (body p 0) s2)) as F.
+  destruct (exec_actions InConstruct s2 (body p 0)) as [s3 failed]. cbn [fst] in *.
+  pose proof (fr_worker _ _ F) as W3.
+  destruct failed; [discriminate|]. intros _.
   set (s5 := set_ps PInit _).
   assert (H5 : running s5 = false /\ ps s5 = PInit /\ worker s5 = WAlive).
-  { unfold s5, running. destruct failed; ssimpl; repeat split; congruence. }
+  { unfold s5, running. ssimpl; repeat split; congruence. }
   destruct H5 as (A&B&C).
-  destruct (r_warm r <? clock s5); unfold Live, running in *; ssimpl; auto.
+  cbn [fst]. destruct (r_warm r <? clock s5); unfold Live, running in *; ssimpl; auto.
 Qed.
 
 (* ------------------------------------------------------------------ *)
@@ -1187,9 +1221,10 @@ Qed.
 (** * From initialize on *)
 
 Lemma do_init_core p p' s r :
-  prog_equiv p p' -> core_eq (fst (do_init p s r)) (fst (do_init p' s r)).
+  prog_equiv p p' -> snd (do_init p s r) = ResOk -> snd (do_init p' s r) = ResOk ->
+  core_eq (fst (do_init p s r)) (fst (do_init p' s r)).
 Proof.
-  intros PE. unfold do_init. destruct (running s); [apply core_eq_refl|].
+  intros PE. unfold do_init. destruct (running s); [intros; apply core_eq_refl|].
   set (s2 := set_created [] _).
   destruct (exec_actions_core_body InConstruct (body p 0) s2) as [A1 B1].
   destruct (exec_actions_core_body InConstruct (body p' 0) s2) as [A2 B2].
@@ -1200,16 +1235,53 @@ Proof.
     by congruence.
   destruct (exec_actions InConstruct s2 (body p 0)) as [s3 f1].
   destruct (exec_actions InConstruct s2 (body p' 0)) as [t3 f2]. cbn [fst] in *.
-  set (s5 := set_ps PInit (set_rs RInit (if f1 then raise_flag s3 else s3))).
-  set (t5 := set_ps PInit (set_rs RInit (if f2 then raise_flag t3 else t3))).
+  destruct f1; [discriminate|]. destruct f2; [discriminate|]. intros _ _.
+  set (s5 := set_ps PInit (set_rs RInit s3)).
+  set (t5 := set_ps PInit (set_rs RInit t3)).
   assert (C5 : core_eq s5 t5 /\ clock s5 = clock t5).
-  { destruct C3 as (Cp&Cn&Cc&Ct&Cx&Cr). unfold s5, t5. destruct f1, f2; unfold core_eq; ssimpl; auto 10. }
-  destruct C5 as [(Cp&Cn&Cc&Ct&Cx&Cr) K5]. rewrite K5.
+  { destruct C3 as (Cp&Cn&Cc&Ct&Cx&Cr). unfold s5, t5. unfold core_eq; ssimpl; auto 10. }
+  destruct C5 as [(Cp&Cn&Cc&Ct&Cx&Cr) K5]. cbn [fst]. rewrite K5.
   destruct (r_warm r <? clock t5); unfold core_eq; ssimpl; rewrite ?Cp, ?Cn, ?Cc, ?Ct, ?Cx, ?Cr; auto 10.
 Qed.
 
+(* a simulator that is not initialised refuses every run command *)
+Lemma notinit_frozen p fuel s c :
+  rs s = RNotInit -> is_runcmd c = true -> fst (do_cmd fuel p s c) = s.
+Proof.
+  intros R Hc.
+  assert (S1 : start_checks s = false) by (unfold start_checks; rewrite R; rewrite !andb_false_r; reflexivity).
+  assert (S2 : step_checks s = false) by (unfold step_checks; rewrite R; rewrite !andb_false_r; reflexivity).
+  assert (Rn : running s = false) by (unfold running; rewrite R; reflexivity).
+  destruct c; try discriminate; cbn [do_cmd]; auto.
+  - destruct (rep s); auto. unfold do_start. rewrite S1. auto.
+  - unfold do_step. rewrite S2. auto.
+  - rewrite Rn. auto.
+  - unfold do_start. rewrite S1. auto.
+  - unfold do_start. rewrite S1. auto.
+Qed.
+
+Lemma notinit_run_cmds p fuel cs : forall s,
+  rs s = RNotInit -> forallb is_runcmd cs = true -> fst (run_cmds fuel p s cs) = s.
+Proof.
+  induction cs as [|c r IH]; intros s R Hc; cbn [run_cmds fst]; auto.
+  cbn [forallb] in Hc. apply andb_true_iff in Hc. destruct Hc as [Hc Hr].
+  pose proof (notinit_frozen p fuel s c R Hc) as E.
+  destruct (do_cmd fuel p s c) as [s1 res]. cbn [fst] in E. subst s1.
+  specialize (IH s R Hr). destruct (run_cmds fuel p s r) as [s2 sn]. exact IH.
+Qed.
+
+Lemma do_init_cases p s r :
+  running s = false -> snd (do_init p s r) = ResOk \/ snd (do_init p s r) = ResRaised.
+Proof.
+  intros R. unfold do_init. rewrite R.
+  match goal with |- context [exec_actions InConstruct ?X ?B] => destruct (exec_actions InConstruct X B) as [s3 [|]] end;
+    cbn [snd]; auto.
+Qed.
+
 (** The whole replication: initialize, then any run commands, against
-    initialize, then one start of an equivalent program. *)
+    initialize, then one start of an equivalent program.  (If construct_model
+    raises, initialize is aborted and no run command is accepted, so the
+    replication never ends: the hypotheses then cannot hold.) *)
 Theorem segmentation_from_init p p' fuel fuel' r cs s :
   running s = false -> prog_equiv p p' -> forallb is_runcmd cs = true ->
   let s1 := fst (run_cmds fuel p s (CInit r :: cs)) in
@@ -1218,8 +1290,19 @@ Theorem segmentation_from_init p p' fuel fuel' r cs s :
   trace s1 = trace t1 /\ clock s1 = clock t1.
 Proof.
   intros R PE Hc. cbv zeta. cbn [run_cmds do_cmd].
-  pose proof (do_init_core p p' s r PE) as C0.
-  pose proof (do_init_live p s r R) as L0. pose proof (do_init_live p' s r R) as L0'.
+  destruct (do_init_cases p s r R) as [Ok|Ra]; [|
+    destruct (do_init_raised p s r Ra) as (Rs&Ps&_);
+    pose proof (notinit_run_cmds p fuel cs _ Rs Hc) as E;
+    destruct (do_init p s r) as [s0 res0]; cbn [fst] in *;
+    destruct (run_cmds fuel p s0 cs) as [s1 sn1]; cbn [fst] in *; subst s1; intros P1; congruence].
+  destruct (do_init_cases p' s r R) as [Ok'|Ra']; [|
+    destruct (do_init_raised p' s r Ra') as (Rs&Ps&_);
+    pose proof (notinit_frozen p' fuel' _ CStart Rs eq_refl) as E; cbn [do_cmd] in E;
+    destruct (do_init p' s r) as [t0 res0']; cbn [fst] in *;
+    destruct (match rep t0 with Some r0 => do_start fuel' p' t0 (TNum (r_end r0)) true | None => (t0, ResRefused) end) as [t1 rs1];
+    cbn [fst] in *; subst t1; intros _ _ P2; congruence].
+  pose proof (do_init_core p p' s r PE Ok Ok') as C0.
+  pose proof (do_init_live p s r Ok) as L0. pose proof (do_init_live p' s r Ok') as L0'.
   destruct (do_init p s r) as [s0 res0]. destruct (do_init p' s r) as [t0 res0']. cbn [fst] in *.
   pose proof (segmentation p p' fuel fuel' cs [CStart] s0 t0 PE C0 (or_introl L0) (or_introl L0') Hc eq_refl) as H.
   cbv zeta in H. cbn [run_cmds do_cmd] in H.
